@@ -175,6 +175,32 @@ Theorem slots_distinct : forall x y vs i, index_of x vs = Some i -> index_of y v
 Proof. exact index_of_inj. Qed.
 Print Assumptions slots_distinct.
 
+(* "named arguments are bound by parameter name" (/repo 023935e, 79da08f): what the code does with its
+   per-parameter cells and index scans ([named_ok_impl], [arrange_impl]: CallExpression.GetValue ->
+   bindNamedCall) is what the reference semantics says with association lists — a named argument is
+   accepted iff a parameter carries the name, that parameter got no positional argument and the name was
+   not used before; every parameter then receives its positional argument, else the argument named after
+   it, else its default, and a parameter left without any makes the call an ArgumentCountError.  Both are
+   used by the interpreters' ECallN case, so impl_refines_ref covers calls with named arguments. *)
+Theorem named_argument_check : forall ps vs x seen, named_ok_impl ps vs x seen = named_ok_spec ps vs x seen.
+Proof. exact named_ok_eq. Qed.
+Print Assumptions named_argument_check.
+Theorem named_arguments_bound_by_name : forall ps vs nvs, arrange_impl ps vs nvs = arrange_spec ps vs nvs.
+Proof. exact arrange_eq. Qed.
+Print Assumptions named_arguments_bound_by_name.
+(* function f($a = 1, $b = 2, $c = 3): f(c: 9) passes 1, 2, 9 and f(5, c: 9) passes 5, 2, 9 (the code before the
+   repair passed null, 2, 3 and 5, null, 3); f(5, a: 9) and f(d: 1) are refused, g(y: 2) with function g($x, $y = 10)
+   lacks $x *)
+Theorem named_arguments_examples :
+  let ps := [("a", Some (VInt 1)); ("b", Some (VInt 2)); ("c", Some (VInt 3))] in
+  arrange_impl ps [] [("c", VInt 9)] = Some [VInt 1; VInt 2; VInt 9] /\
+  arrange_impl ps [VInt 5] [("c", VInt 9)] = Some [VInt 5; VInt 2; VInt 9] /\
+  named_ok_impl ps [VInt 5] "a" [] = false /\ named_ok_impl ps [] "d" [] = false /\
+  named_ok_impl ps [] "c" [("c", VInt 9)] = false /\ named_ok_impl ps [VInt 5] "c" [("b", VInt 7)] = true /\
+  arrange_impl [("x", None); ("y", Some (VInt 10))] [] [("y", VInt 2)] = None.
+Proof. vm_compute. repeat split. Qed.
+Print Assumptions named_arguments_examples.
+
 (* The classes that used to be outside [clean] and have been repaired in /repo (switch fall-through in three
    positions: 8109483; static in the main script: d3ebf7f; a closure running off its end: 1b0c649): the former
    `_refuted` witnesses are now inside the theorem, and both interpreters compute PHP's answer on them.
